@@ -142,6 +142,9 @@ L = 'fast_ticc.cluster_label_assignment.'
 def _cost_table(rng):
     t, k = rng.randint(1, 6), rng.randint(1, 4)
     mode = rng.random()
+    if mode > 0.96:     # widths around the capacity of the narrow integer dtypes a back-pointer table could be given
+        t, k = rng.randint(1, 3), rng.choice([127, 128, 129, 255, 256, 257, 300])
+        return farr(rng, t, k)
     if mode < 0.3:      # many ties
         return np.array([[float(rng.randint(0, 2)) for _ in range(k)] for _ in range(t)])
     if mode < 0.5:      # huge spread
@@ -206,10 +209,20 @@ def _(rng):
     return dict(u=farr(rng, n), x=farr(rng, n), z=farr(rng, n))
 
 
+def _balance_rho(rho, residual_primal, tolerance_primal, residual_dual, tolerance_dual):
+    """residual balancing (Boyd et al. 3.4.1): the usual adaptive-rho rule a caller would plug in"""
+    if residual_primal > 10 * residual_dual:
+        return 2 * rho
+    if residual_dual > 10 * residual_primal:
+        return rho / 2
+    return rho
+
+
 def _admm_args(rng, lam=None, nw=None):
     from fast_ticc.containers import arguments
     w, n = nw or (rng.randint(1, 3), rng.randint(1, 3))
-    return arguments.ADMMArguments(window_size=w, num_data_series=n, rho=rng.choice([0.5, 1.0, 2.0]), rho_update=None,
+    return arguments.ADMMArguments(window_size=w, num_data_series=n, rho=rng.choice([0.5, 1.0, 2.0]),
+                                   rho_update=_balance_rho if rng.random() < 0.35 else None,
                                    sparsity_weight=abs(fl(rng, 0, 2)) if lam is None else lam,
                                    absolute_tolerance=1e-6, relative_tolerance=1e-6, max_iterations=rng.randint(0, 30),
                                    verbose=False)
@@ -259,6 +272,10 @@ def _(rng):
     a = _admm_args(rng)
     m = a.window_size * a.num_data_series
     return dict(args=a, empirical_covariance=_spd(rng, m))
+
+
+for _m in ('shallow_copy', 'deep_copy'):
+    GENS['fast_ticc.containers.arguments.ADMMArguments.' + _m] = (lambda rng: dict(self=_admm_args(rng)))
 
 
 @gen('fast_ticc.admm.front_end.admm_optimize_theta')
